@@ -165,15 +165,15 @@ Lemma pinv_frame s s' : st_out s' = st_out s -> st_sink s' = st_sink s -> st_out
   pinv s -> pinv s'.
 Proof. intros H1 H2 H3 H4. unfold pinv. rewrite H1, H2, H3, H4. auto. Qed.
 
-Lemma touch_eq s : st_out (touch E s) = st_out s /\ st_sink (touch E s) = st_sink s /\ st_outs (touch E s) = st_outs s /\
-  st_log (touch E s) = st_log s.
+Lemma touch_eq s n : st_out (touch E s n) = st_out s /\ st_sink (touch E s n) = st_sink s /\ st_outs (touch E s n) = st_outs s /\
+  st_log (touch E s n) = st_log s.
 Proof.
   unfold touch. destruct (negb (is_osfile (e_mode E)) && any_cmd (st_outs s)); cbn [st_outs set_overlap];
-  destruct (any_active (st_outs s)); cbn; auto.
+  match goal with |- context [if ?c then set_unmod _ else _] => destruct c end; cbn; auto.
 Qed.
 
-Lemma pinv_touch s : pinv s -> pinv (touch E s).
-Proof. destruct (touch_eq s) as (A & B & C & D). apply pinv_frame; auto. Qed.
+Lemma pinv_touch s n : pinv s -> pinv (touch E s n).
+Proof. destruct (touch_eq s n) as (A & B & C & D). apply pinv_frame; auto. Qed.
 
 (* what every helper guarantees: the invariant, a full sink stays full, the table is untouched *)
 Definition step_ok (s s' : state) : Prop :=
@@ -182,8 +182,8 @@ Definition step_ok (s s' : state) : Prop :=
 Lemma flush_stdout_pinv s : pinv s -> step_ok s (fst (flush_stdout E s)) /\ (snd (flush_stdout E s) = false -> sfull (fst (flush_stdout E s))).
 Proof.
   intros Hp. unfold flush_stdout, step_ok. destruct (e_mode E) eqn:Em; cbn [fst snd]; try (split; [split; [auto|split; auto]|discriminate]).
-  pose proof (pinv_touch s Hp) as Hp1. destruct (touch_eq s) as (A & B & C & D). unfold sfull. rewrite <- B, <- C.
-  set (s1 := touch E s) in *. destruct Hp1 as (Hv & Hm & Hc).
+  pose proof (pinv_touch s 0%nat Hp) as Hp1. destruct (touch_eq s 0%nat) as (A & B & C & D). unfold sfull. rewrite <- B, <- C.
+  set (s1 := touch E s 0%nat) in *. destruct Hp1 as (Hv & Hm & Hc).
   destruct (bw_flush (st_out s1) (st_sink s1)) as [[w k] ok] eqn:Ef. cbn [fst snd].
   destruct (bw_flush_view _ _ _ _ _ _ Hv Ef) as (Hv1 & Hfail & _ & Hfull).
   split; [split; [|split; [exact Hfull|reflexivity]]|exact Hfail].
@@ -197,8 +197,8 @@ Proof. intros Hp. apply flush_stdout_pinv; auto. Qed.
 Lemma write_stdout_pinv s ps : pinv s -> step_ok s (fst (write_stdout E s ps)).
 Proof.
   intros Hp. unfold write_stdout, step_ok.
-  pose proof (pinv_touch s Hp) as Hp1. destruct (touch_eq s) as (A & B & C & D). unfold sfull. rewrite <- B, <- C.
-  set (s1 := touch E s) in *. destruct Hp1 as (Hv & Hm & Hc).
+  pose proof (pinv_touch s (length (concat ps)) Hp) as Hp1. destruct (touch_eq s (length (concat ps))) as (A & B & C & D). unfold sfull. rewrite <- B, <- C.
+  set (s1 := touch E s (length (concat ps))) in *. destruct Hp1 as (Hv & Hm & Hc).
   destruct (e_mode E) eqn:Em; cbv beta iota; cbn [st_out st_sink add_log].
   - destruct Hm as (Hb & He). destruct (write_pieces_direct (st_sink s1) ps) as [k ok] eqn:Ew. cbn [fst].
     destruct (write_pieces_direct_view _ ps Hb He _ _ _ _ Hv Ew) as (Hv1 & _ & Hfull).
@@ -244,9 +244,12 @@ Proof.
     + destruct cg.
       * cbn [fst snd]. split; [|intros _; apply Hcg; auto]. split; [|split; auto].
         rewrite <- (Hid (set_unmod (add_log s (EvChildOut data)))). apply (Hpi _ _ true); auto. apply view_ext; auto.
-      * destruct (bw_read_from cap (st_out s) (st_sink s) data) as [[w k] ok] eqn:Ew. cbn [fst snd].
-        destruct (bw_read_from_view _ _ _ _ _ _ _ _ Hv Ew) as (Hv1 & Hfail & Hfull).
-        split; [|exact Hfail]. split; [|split; [exact Hfull|reflexivity]]. apply (Hpi _ _ false); auto.
+      * match goal with |- context [if ?c then set_unmod ?x else ?x] => destruct c end; cbn [st_out st_sink set_unmod add_log];
+        (destruct (bw_read_from cap (st_out s) (st_sink s) data) as [[w k] ok] eqn:Ew; cbn [fst snd];
+         destruct (bw_read_from_view _ _ _ _ _ _ _ _ Hv Ew) as (Hv1 & Hfail & Hfull);
+         split; [|exact Hfail]; split; [|split; [exact Hfull|reflexivity]]).
+        -- apply (Hpi _ _ true); auto.
+        -- apply (Hpi _ _ false); auto.
 Qed.
 
 Lemma child_eof_pinv s cg : pinv s -> (cg = true -> sfull s) ->
@@ -405,7 +408,7 @@ Proof.
   unfold flush_out_err, flush_stdout. destruct (e_mode E) eqn:Em; cbn [fst].
   - destruct Hp1 as (_ & Hm & _). rewrite Em in Hm. tauto.
   - destruct Hp1 as (_ & Hm & _). rewrite Em in Hm. tauto.
-  - destruct (touch_eq s1) as (T1 & T2 & _). pose proof (pinv_touch s1 Hp1) as (Hv & _).
+  - destruct (touch_eq s1 0%nat) as (T1 & T2 & _). pose proof (pinv_touch s1 0%nat Hp1) as (Hv & _).
     destruct (bw_flush _ _) as [[w k] ok] eqn:Ef. cbn [fst st_out set_out].
     destruct (bw_flush_view _ _ _ _ _ _ Hv Ef) as (_ & _ & Hok & _).
     intros He. destruct ok; [apply Hok; auto|].
@@ -470,7 +473,7 @@ Proof.
       destruct (close_ostream_pinv (set_outs s (aremove n (st_outs s))) n os (pinv_aremove s n Hp)) as (A & _).
       { intros Hc. apply (pinv_lookup _ _ _ Hp El Hc). }
       destruct (close_ostream E _ n os) as [[s1 code] err]. cbn [fst] in *. apply pinv_add_obs.
-      apply if_print_errorf_pinv. apply pinv_add_log; [exact I|auto].
+      apply if_unmod_pinv. apply if_print_errorf_pinv. apply pinv_add_log; [exact I|auto].
   - destruct (alookup n (st_outs s)) as [os|] eqn:El; cbn [fst]; apply pinv_add_obs.
     + apply flush_named_pinv; auto.
     + apply (if_print_errorf_pinv true); auto.
